@@ -66,6 +66,9 @@ def variants(rng, snippet_keys):
         {"name": "out-elsewhere", "out": "deep/er/output dir"},
         {"name": "preexisting", "preexisting": {"stale.txt": "stale", "schema.json": "{}",
                                                  "types.py": "junk", "src/types.cpp": "junk"}},
+        {"name": "preexisting-crlf", "preexisting_from_reference": "crlf"},
+        {"name": "preexisting-trailing", "preexisting_from_reference": "trailing-blank"},
+        {"name": "preexisting-truncated", "preexisting_from_reference": "truncated"},
         {"name": "cwd", "cwd": "some/where"},
         {"name": "snippets-reversed", "snippet_order": rev},
         {"name": "snippets-shuffled", "snippet_order": shuf},
@@ -128,7 +131,9 @@ def streams(ctx: lib.Ctx) -> None:
     mm = mmg.random_metamodel(rng, "tiny")
     text = mmg.render_source(mm)
     bad_snips = dict(mmg.synth_snippets(mm, "python"))
-    bad_snips.update({"bad name.txt": "x", "1bad/y.txt": "y", "also bad!.txt": "z", "ok/fine.txt": "w"})
+    bad_snips.update({"bad name.txt": "x", "1bad/y.txt": "y", "also bad!.txt": "z", "ok/fine.txt": "w",
+                      "zz/bad one.txt": "a", "aa/bad two.txt": "b", "mm/1x.txt": "c",
+                      "mm/deep/er/bad three.txt": "d", "bb/invalid utf8.txt": {"hex": "ff00fe"}})
     jobs.append(("neg-snippets", "python", text, bad_snips))
     jobs.append(("neg-model", "jsonschema", text.replace("class ", "class 1", 1),
                  mmg.synth_snippets(mm, "jsonschema")))
